@@ -197,6 +197,43 @@ def run(chk):
                          f"(residual {res_:.2e})", dict(info, run=nm_))
                 break
 
+    # ---- stationary systems (Hamiltonian, coupling and initial state diagonal in one basis: the states do not move at all) with a
+    # field equation that depends on time and on the field: the Heun rule is exact for equations linear in time whatever the systems
+    # do, and both methods agree --------------------------------------------------------------------------------------------
+    for it in range(6 if thorough else 2):
+        dt, N, start = rng.choice([0.1, 0.2]), rng.randint(3, 6), rng.choice([0.0, 1.5])
+        al, be = rng.choice([0.3, 2.0]) + 0.2j, rng.choice([2.0, -0.7]) + 0.1j
+        nsys = rng.choice([1, 2])
+        real_bath = it % 2 == 1
+        corr_ = oqupy.PowerLawSD(alpha=0.2 if real_bath else 0.0, zeta=1, cutoff=2.0, cutoff_type="exponential", temperature=0.1)
+        ops_, hs_ = [0.5 * SZ, np.diag([1.0, 0.0, -1.0])], [0.4 * SZ, np.diag([0.0, 0.5, 1.2]).astype(complex)]
+        r0s_ = [np.diag([0.8, 0.2]).astype(complex), np.diag([0.5, 0.3, 0.2]).astype(complex)][:nsys]
+        ss_ = [oqupy.TimeDependentSystemWithField(lambda t, a, i=i: hs_[i] * (1 + 0.1 * a.real)) for i in range(nsys)]
+        eom_ = lambda t, st, a: al + be * t
+        mfs_ = oqupy.MeanFieldSystem(ss_, field_eom=eom_)
+        par_ = oqupy.TempoParameters(dt=dt, epsrel=1e-7, dkmax=3, subdiv_limit=None)
+        baths_ = [oqupy.Bath(ops_[i], corr_) for i in range(nsys)]
+        a0 = 0.4 + 0.1j
+        info = {"kind": "stationary-systems", "systems": nsys, "dt": dt, "N": N, "start": start, "eom": [str(al), str(be)], "coupled": real_bath}
+        chk.search_cases += 1
+        chk.count("stationary_systems")
+        chk.case(info, ("stationary", nsys, dt, N, start, real_bath))
+        F = lambda t: al * t + be * t * t / 2
+        want = [a0 + F(start + k * dt) - F(start) for k in range(N + 1)]
+        try:
+            d1 = quiet(oqupy.MeanFieldTempo(mfs_, baths_, par_, r0s_, a0, start).compute, start + N * dt, progress_type="silent")
+            pts_ = [quiet(oqupy.pt_tempo_compute, b_, start, start + N * dt, parameters=par_, progress_type="silent") for b_ in baths_]
+            d2 = quiet(oqupy.compute_dynamics_with_field, mfs_, a0, process_tensor_list=pts_, start_time=start, initial_state_list=r0s_, subdiv_limit=None, progress_type="silent")
+        except Exception as ex:
+            chk.fail("meanfield-raises", f"mean-field drivers raise {ex!r} for stationary systems", info)
+            continue
+        for nm_, dy_ in (("mft", d1), ("cdwf", d2)):
+            fl_ = [complex(x) for x in dy_.fields]
+            if len(fl_) != N + 1 or max(abs(f_ - w_) for f_, w_ in zip(fl_, want)) > 1e-11:
+                chk.fail("heun-not-exact:" + nm_, f"{nm_}: systems that do not move, field equation {al} + {be} t from t0 = {start}: the field deviates from the exact "
+                         f"integral by {max(abs(f_ - w_) for f_, w_ in zip(fl_, want)):.2e}", info)
+                break
+
     # ---- systems that do not depend on the field: each evolves exactly as in a plain TEMPO run / plain compute_dynamics with
     # the same (explicitly time-dependent) Hamiltonian, rates and Lindblad operators ---------------------------------------
     for it in range(9 if (thorough or chk.disagreements or chk.broken) else 3):
